@@ -8,6 +8,7 @@ import (
 	"os/exec"
 	"path/filepath"
 	"regexp"
+	"runtime"
 	"sort"
 	"strconv"
 	"strings"
@@ -562,6 +563,36 @@ func runCheck(cfg RunConfig) int {
 			case <-stop:
 				return
 			case <-tick.C:
+				// runaway allocation (an implementation call that loops while growing a slice eats gigabytes per minute and
+				// would take the machine down long before its time budget): re-run the calls in flight, oldest first, in a fresh
+				// process that polices its own heap; the one that does not come back is the failing input
+				var ms runtime.MemStats
+				runtime.ReadMemStats(&ms)
+				if ms.HeapAlloc > runHeapLimit {
+					type inflight struct {
+						at int64
+						c  Case
+					}
+					var fl []inflight
+					for i := range e.started {
+						if s := e.started[i].Load(); s != 0 {
+							if c, ok := e.watch[i].Load().(Case); ok {
+								fl = append(fl, inflight{s, c})
+							}
+						}
+					}
+					sort.Slice(fl, func(a, b int) bool { return fl[a].at < fl[b].at })
+					for _, f := range fl {
+						if !confirmReturns(cfg, f.c, 60*time.Second) {
+							path := filepath.Join(cfg.ReplayDir, cfg.Prop+"-hang.json")
+							writeJSON(path, Failure{Case: f.c, Class: "crash", Clause: "an implementation call allocates without bound (the run's heap passed 12 GB; re-run alone in a fresh process the call passed 6 GB or did not return within 60 s)"})
+							fmt.Printf("VIOLATION property=%s replay=%s\n", cfg.Prop, path)
+							os.Exit(1)
+						}
+					}
+					fmt.Printf("note: the heap of the run passed %d GB but every call in flight returns in a fresh process\n", runHeapLimit>>30)
+					os.Exit(4)
+				}
 				for i := range e.started {
 					s := e.started[i].Load()
 					c, _ := e.watch[i].Load().(Case)
@@ -622,6 +653,28 @@ func runCheck(cfg RunConfig) int {
 	wg.Wait()
 	close(stop)
 	return report(cfg, e.stats, time.Since(t0))
+}
+
+// heap limits of the watchdog: the whole run, and one case alone in a fresh process (the largest legitimate cases — 2^16-value
+// lists, 10^4-deep trees through the quadratic JSON encoder — stay far below)
+const (
+	runHeapLimit     = 12 << 30
+	confirmHeapLimit = 6 << 30
+)
+
+// policeHeap makes the process exit with status 3 when its heap passes the limit.
+func policeHeap(limit uint64) {
+	go func() {
+		for {
+			var ms runtime.MemStats
+			runtime.ReadMemStats(&ms)
+			if ms.HeapAlloc > limit {
+				fmt.Fprintf(os.Stderr, "runaway allocation: heap %d MB\n", ms.HeapAlloc>>20)
+				os.Exit(3)
+			}
+			time.Sleep(100 * time.Millisecond)
+		}
+	}()
 }
 
 // confirmReturns runs the implementation calls of one case in a fresh process and reports whether they return within
